@@ -109,6 +109,9 @@ pub struct Cmd {
     /// (engine E3) instead of the shuttle executor
     #[serde(default)]
     pub e3: bool,
+    /// run the library probe (real threads calling Mnemonic::random) instead of hdwallet
+    #[serde(default)]
+    pub libprobe: bool,
 }
 
 #[derive(Clone, Debug, Serialize, Deserialize, PartialEq, Eq)]
@@ -251,6 +254,7 @@ pub fn panic_fingerprint(loc: &str, msg: &str) -> String {
 pub struct Ctx {
     pub hdwallet: PathBuf,
     pub threadsim: PathBuf,
+    pub libprobe: PathBuf,
     pub shim: PathBuf,
     pub work_root: PathBuf,
     pub timeout: Duration,
@@ -263,6 +267,7 @@ impl Ctx {
         Ctx {
             hdwallet: root.join("target/repo/release/hdwallet"),
             threadsim: root.join("target/sim/release/threadsim"),
+            libprobe: root.join("target/sim/release/libprobe"),
             shim: root.join("target/simos_preload.so"),
             work_root: root.join("work").join(format!("{}", std::process::id())),
             timeout: Duration::from_secs(10),
@@ -394,22 +399,37 @@ pub static SPURIOUS_TIMEOUTS: std::sync::atomic::AtomicUsize =
 
 /// Execute one simulated process in `dir` (a directory owned by the calling
 /// worker; it is emptied first). A process killed by the wall-clock watchdog is
-/// executed once more, alone (no other re-run at the same time) and with twice
-/// the limit, before the timeout is believed: the watchdog is the only place
+/// executed once more, alone (no other re-run at the same time), before the
+/// timeout is believed: the watchdog is the only place
 /// where host load could leak into a verdict.
 pub fn exec(ctx: &Ctx, dir: &Path, cmd: &Cmd) -> Result<Outcome, HarnessError> {
+    use std::sync::atomic::Ordering::Relaxed;
     static ALONE: Mutex<()> = Mutex::new(());
     let first = exec_once(ctx, dir, cmd, ctx.timeout)?;
     if first.status != Status::Timeout {
         return Ok(first);
     }
+    // Once four timeouts were confirmed by their re-run, this tree evidently hangs for real and
+    // further re-runs (serialised, 10 s each) would only cost time.
+    if CONFIRMED_TIMEOUTS.load(Relaxed) >= 4 {
+        return Ok(first);
+    }
     let _g = ALONE.lock().unwrap_or_else(|e| e.into_inner());
-    let second = exec_once(ctx, dir, cmd, ctx.timeout * 2)?;
+    let second = exec_once(ctx, dir, cmd, ctx.timeout)?;
     if second.status != Status::Timeout {
-        SPURIOUS_TIMEOUTS.fetch_add(1, std::sync::atomic::Ordering::Relaxed);
+        SPURIOUS_TIMEOUTS.fetch_add(1, Relaxed);
+    } else {
+        CONFIRMED_TIMEOUTS.fetch_add(1, Relaxed);
     }
     Ok(second)
 }
+
+/// Watchdog kills that were confirmed by the re-run.
+pub static CONFIRMED_TIMEOUTS: std::sync::atomic::AtomicUsize = std::sync::atomic::AtomicUsize::new(0);
+/// Set once the shuttle executor (E2) proved unable to run this tree's threaded scenarios: its
+/// threads are created outside the seam, or code outside the seam blocks on real std locks across
+/// scheduling points. Threaded scenarios then go straight to the real binary under the shim (E3).
+pub static E2_UNUSABLE: std::sync::atomic::AtomicUsize = std::sync::atomic::AtomicUsize::new(0);
 
 fn exec_once(ctx: &Ctx, dir: &Path, cmd: &Cmd, timeout: Duration) -> Result<Outcome, HarnessError> {
     let he = |s: String| HarnessError(s);
@@ -489,7 +509,7 @@ fn exec_once(ctx: &Ctx, dir: &Path, cmd: &Cmd, timeout: Duration) -> Result<Outc
         }
         let plan_path = dir.join(".plan");
         std::fs::write(&plan_path, plan).map_err(|e| he(format!("write plan: {e}")))?;
-        c = Command::new(&ctx.hdwallet);
+        c = Command::new(if cmd.libprobe { &ctx.libprobe } else { &ctx.hdwallet });
         c.args(&cmd.argv);
         c.env("LD_PRELOAD", &ctx.shim)
             .env("SIMOS_PLAN", &plan_path)
